@@ -712,13 +712,16 @@ pub fn execute(case: &ConcCase, stats: &mut Stats, work: &Path) -> Option<Violat
     let baton = Arc::new(Baton::new(nt));
     let results: Arc<Mutex<Vec<Option<Vec<Obs>>>>> = Arc::new(Mutex::new(vec![None; nt]));
     let mut handles = vec![];
+    let ktids: Arc<Vec<std::sync::atomic::AtomicI64>> = Arc::new((0..nt).map(|_| std::sync::atomic::AtomicI64::new(0)).collect());
     for tid in 0..nt {
         let ops = case.threads[tid].clone();
         let baton2 = baton.clone();
         let shared2 = shared.clone();
         let results2 = results.clone();
         let n_lists = case.n_lists;
+        let ktids2 = ktids.clone();
         let h = std::thread::Builder::new().stack_size(64 << 20).spawn(move || {
+            ktids2[tid].store(unsafe { libc::syscall(libc::SYS_gettid) } as i64, std::sync::atomic::Ordering::SeqCst);
             let y: Arc<dyn Yielder> = Arc::new(ThreadYielder { baton: baton2.clone(), tid });
             baton2.park(tid); // wait for the first grant
             let r = catch(|| run_ops(&shared2, &ops, n_lists, Some(y)));
@@ -761,6 +764,7 @@ pub fn execute(case: &ConcCase, stats: &mut Stats, work: &Path) -> Option<Violat
         // CPU time of the thread that holds the baton: a spinning thread is recognised by what it burns,
         // a blocked one by the wall clock
         let holder_cpu0 = last.and_then(|l| crate::harness::thread_cpu_ns(ptids[l]));
+        let mut blocked_since: Option<f64> = None;
         loop {
             let quiescent = g.granted.is_none() && (0..nt).all(|t| g.parked[t] || g.finished[t]);
             if quiescent {
@@ -777,7 +781,17 @@ pub fn execute(case: &ConcCase, stats: &mut Stats, work: &Path) -> Option<Violat
                     }
                 }
             }
-            if crate::clock::real_now() - t0 > 60.0 {
+            // wall-clock time alone decides nothing (other load may starve a runnable thread): the holder of the baton must
+            // have been *asleep* for 30 s (hard cap 30 min)
+            match g.granted.map(|t| ktids[t].load(std::sync::atomic::Ordering::SeqCst)).filter(|k| *k != 0).and_then(crate::harness::thread_state) {
+                Some('S') | Some('D') => {
+                    if blocked_since.is_none() {
+                        blocked_since = Some(crate::clock::real_now());
+                    }
+                }
+                _ => blocked_since = None,
+            }
+            if blocked_since.map(|b| crate::clock::real_now() - b > 30.0).unwrap_or(false) || crate::clock::real_now() - t0 > 1800.0 {
                 deadlock = true;
                 break;
             }
@@ -835,7 +849,7 @@ pub fn execute(case: &ConcCase, stats: &mut Stats, work: &Path) -> Option<Violat
             site: if spinning { "thread-spins".into() } else { "baton-wait-timeout".into() },
             op_index: 0,
             detail: json!({"schedule": choices, "resources_after_load": case.resources_after_load,
-                           "note": "a scheduled thread neither reached a sim point nor finished (20 s of its own CPU time / 60 s wall)"}),
+                           "note": "a scheduled thread neither reached a sim point nor finished (20 s of its own CPU time, or asleep for 30 s)"}),
         };
         crate::harness::abort_batch(v);
     }
